@@ -73,7 +73,9 @@ fn bisect_find_sha(
         if start > end {
             break;
         }
-        let i = (start + end) / 2;
+        // Computed in 64 bits: start + end overflows i32 for tables with
+        // more than 2^30 entries.
+        let i = ((start as i64 + end as i64) / 2) as i32;
 
         let file_sha = unpack_name.call1(py, (i,))?;
         if !py_is_sha(&file_sha, py)? {
